@@ -137,7 +137,7 @@ PushP(p, o, c, h2) ==
 PushKeeps(p, o, h2) == cfg.alive /\ (Room(p, o) \/ (~h2 /\ FirstOpen(p.wt[o], p.ch) # 0))
 
 \* IdleConnections::pop: from the top; the first expired entry clears the list; closed entries are discarded
-Expired(e) == cfg.it = 2 /\ now > e.at
+Expired(e) == cfg.it = 2 /\ now >= e.at + 3        \* ExpireUnits (defined with the clock below)
 RECURSIVE PopWalk(_)
 PopWalk(s) ==
   IF s = <<>> THEN [found |-> FALSE, h |-> NoH, rest |-> <<>>]
@@ -483,10 +483,22 @@ DropPool ==
   /\ ev' = Ev("DropPool")
   /\ UNCHANGED <<co, gc, gh, dl, conn, held, wr, req, polled, rxw, dw, ndial, now>>
 
+\* Time is counted in units of 15 ms: the small idle timeout (40 ms in the harness) has passed after 3 units; a Tick (120 ms of real
+\* sleep in the harness) is 8 units, a SmallTick (15 ms) is 1 unit.  SmallTick exists only in configurations with MaxTick >= 2
+\* (trace validation): it is what makes "used again and again with gaps shorter than the timeout" expressible.
+TickUnits == 8
+ExpireUnits == 3
 Tick ==
-  /\ now < MaxTick
-  /\ now' = now + 1
+  /\ now + TickUnits <= TickUnits * MaxTick
+  /\ now' = now + TickUnits
   /\ ev' = Ev("Tick")
+  /\ UNCHANGED <<cfg, connecting, waiting, idle, chan, co, gc, gh, dl, conn, held, wr, req, woken, polled, rxw, dw, ndial>>
+
+SmallTick ==
+  /\ MaxTick >= 2
+  /\ now + 1 <= TickUnits * MaxTick
+  /\ now' = now + 1
+  /\ ev' = Ev("SmallTick")
   /\ UNCHANGED <<cfg, connecting, waiting, idle, chan, co, gc, gh, dl, conn, held, wr, req, woken, polled, rxw, dw, ndial>>
 
 Next ==
@@ -495,7 +507,7 @@ Next ==
   \/ \E h \in wr : WhenReadyStep(h)
   \/ \E d \in Dial, ok \in BOOLEAN : EnvConnect(d, ok) \/ EnvHandshake(d, ok)
   \/ \E c \in Dial : ConnReady(c) \/ PeerClose(c) \/ Upgrade(c)
-  \/ Tick
+  \/ Tick \/ SmallTick
   \/ DropPool
 
 Spec == Init /\ [][Next]_vars
@@ -520,7 +532,7 @@ Obs == [req  |-> [r \in Req |-> [st |-> ReqSt(r), o |-> IF req[r].st = "new" THE
                                  polled |-> polled[r], woken |-> (req[r].st = "checkout" /\ woken[r]), held |-> held[r].c]],
         conn |-> [c \in 1..ndial |-> [st |-> conn[c].st, o |-> dl[c].o, h2 |-> dl[c].h2, busy |-> conn[c].busy,
                                       up |-> conn[c].up, live |-> IF conn[c].st = "none" THEN 0 ELSE Live(c), by |-> dl[c].r,
-                                      dial |-> DialStage(c)]],
+                                      dial |-> DialStage(c), parked |-> (\E h \in wr : h.c = c)]],
         idle |-> [o \in Origins |-> [i \in 1..Len(idle[o]) |-> idle[o][i].c]],
         wq   |-> [o \in Origins |-> [i \in 1..Len(waiting[o]) |-> chan[waiting[o][i]].st = "rxclosed"]],
         cing |-> [o \in Origins |-> o \in connecting],
@@ -568,6 +580,8 @@ C04iv == [][\A c \in Dial : cfg.alive /\ ev'.e = "Cancel" /\ ev'.stage = "checko
                              => Live(c)' > 0]_vars
 C04ivIdle == [][ev'.e = "Cancel" => idle' = idle]_vars
 \* C04 (kept): an open, ready connection that is handed back is kept if there is room or a waiter
+C04rel == [][\A c \in Dial : cfg.alive /\ (ev'.e = "Release" \/ (ev'.e = "Cancel" /\ ev'.stage = "sending")) /\ held[ev'.r].c = c
+                                /\ conn[c].st = "open" /\ ~conn[c].up /\ ~conn[c].h2 => Live(c)' > 0]_vars
 C04kept == [][\A c \in Dial : ev'.e = "HandBack" /\ ev'.ok /\ ev'.c = c => Live(c)' > 0]_vars
 \* C04 (ii)/(iii): an HTTP/2 request dials only if, when it was issued, no HTTP/2 attempt for its origin
 \* was in flight and no usable connection for the origin was pooled: the request was given a connector
